@@ -3,9 +3,9 @@ import glob, json, os
 import vlib
 
 TARGETS = ["Base/Corr.vo", "Base/Fl.vo", "C01/Model.vo", "C02/Model.vo", "C11/Model.vo", "C03/Model.vo",
-           "C09/ModelS.vo", "C09/ModelB.vo", "C09/ModelV.vo", "C09/Spec.vo", "C09/Corr.vo", "C09/SpecTest.vo",
+           "C09/ModelS.vo", "C09/ModelB.vo", "C09/ModelV.vo", "C09/Spec.vo", "C09/Corr.vo", "C09/CorrB.vo", "C09/SpecTest.vo",
            "C09/ProofsS.vo", "C09/ProofsB.vo", "C09/ProofsJ.vo", "C09/ProofsV.vo", "C09/ProofsRefuted.vo",
-           "C09/Props.vo"]
+           "C09/ProofsRefutedB.vo", "C09/Props.vo"]
 PROPS = ["C09/Props.v"]
 PARTIAL = (
     "Proved in Coq (coq/C09/Props.v), for ALL register files / worlds, all zero patterns, all alias patterns, about "
@@ -76,23 +76,27 @@ def corr(ctx, binary, n):
         ctx.violation({"obligation": "C09 harness run", "log": out[-3000:]}, False,
                       "harness failed on the implementation")
         return None, []
-    meta = json.load(open(os.path.join(ctx.dir, "cases.meta.json")))
-    vlib.merge_meta(ctx, meta)
-    shards = sorted(glob.glob(os.path.join(ctx.dir, "cases_*.v")), key=lambda p: int(p.rsplit("_", 1)[1][:-2]))
-    res = vlib.eval_shards(shards)
-    ctx.oblige(len(res), sum(1 for r in res if r["ok"]))
-    cases = vlib.load_jsonl(os.path.join(ctx.dir, "cases.jsonl"))
     bad = []
-    for k, r in enumerate(res):
-        if r["ok"]:
-            continue
-        if r["mism"] is None:
-            ctx.violation({"obligation": "correspondence shard " + os.path.basename(r["path"]),
-                           "coqc_error": r["error"]}, False, "correspondence shard did not evaluate")
-            continue
-        for i in r["mism"]:
-            bad.append(cases[k * meta["per_shard"] + i])
-    ctx.log("correspondence: %d cases in %d shards, %d mismatching" % (len(cases), len(res), len(bad)))
+    nc = ns = 0
+    for stem in ("cases", "bcases"):
+        meta = json.load(open(os.path.join(ctx.dir, stem + ".meta.json")))
+        vlib.merge_meta(ctx, meta)
+        shards = sorted(glob.glob(os.path.join(ctx.dir, stem + "_*.v")), key=lambda p: int(p.rsplit("_", 1)[1][:-2]))
+        res = vlib.eval_shards(shards)
+        ctx.oblige(len(res), sum(1 for r in res if r["ok"]))
+        cases = vlib.load_jsonl(os.path.join(ctx.dir, stem + ".jsonl"))
+        nc += len(cases)
+        ns += len(res)
+        for k, r in enumerate(res):
+            if r["ok"]:
+                continue
+            if r["mism"] is None:
+                ctx.violation({"obligation": "correspondence shard " + os.path.basename(r["path"]),
+                               "coqc_error": r["error"]}, False, "correspondence shard did not evaluate")
+                continue
+            for i in r["mism"]:
+                bad.append(cases[k * meta["per_shard"] + i])
+    ctx.log("correspondence: %d cases in %d shards, %d mismatching" % (nc, ns, len(bad)))
     return meta, bad
 
 
